@@ -19,9 +19,9 @@ import relayconc as rc
 from vlib import NCPU, Inconclusive, read_ndjson, write_ndjson
 
 MODEL_INVS = ["NoOrphan", "SidUnique", "SidSource", "Lifecycle", "FrameHandlers", "NoLockLeft", "OwnSane", "ConvUnlessKnown"]
-TRACE_INVS = ["L_Lifecycle", "L_FrameHandlers", "L_SidSource", "L_Conv", "M_Inv"]
+TRACE_INVS = ["L_Lifecycle", "L_FrameHandlers", "L_SidSource", "L_Conv", "L_RelayOnce", "M_Inv"]
 # which invariant speaks for which property (a violated invariant is reported under every property that owns it)
-OWNER = dict(L_Lifecycle=["C07", "C10"], L_FrameHandlers=["C11", "C07"], L_SidSource=["C10", "C07"], L_Conv=["C01"],
+OWNER = dict(L_RelayOnce=["C02"], L_Lifecycle=["C07", "C10"], L_FrameHandlers=["C11", "C07"], L_SidSource=["C10", "C07"], L_Conv=["C01"],
              M_Inv=["C07", "C10", "C09"], deadlock=["C09"])
 SYMPTOMS = ["D9", "D13", "D15", "D16", "D17", "D18"]
 SYMPTOM_NAME = dict(D9="relay_before_snapshot", D13="module_state_split", D15="stale_module_snapshot", D16="relay_for_deleted_entity", D17="older_action_after_newer", D18="action_outlives_entity")
